@@ -144,6 +144,7 @@ func c09Run(c *Ctx) {
 	Flags{}.Apply()
 	c09History(c, keys)
 	c09Streams(c, keys)
+	c09Positions(c, keys)
 	// ---- (2) corruption: every single-byte substitution and every truncation of ciphertexts; every
 	// key differing in one byte
 	if true {
@@ -445,6 +446,111 @@ func c09Streams(c *Ctx, keys [][]byte) {
 	Flags{}.Apply()
 }
 
+// c09Positions: the same plaintexts at every kind of position a sensitive string can stand in (not only a find filter):
+// what is emitted there must decrypt - once - to the literal.
+func c09Positions(c *Ctx, keys [][]byte) {
+	if c.NShards > 1 && c.Shard > 1 {
+		return
+	}
+	key := keys[c.Shard%2]
+	Flags{Y: true, Key: key}.Apply()
+	defer Flags{}.Apply()
+	env := func(comp, cmd string) string {
+		return `{"t":{"$date":"2024-05-01T10:00:00.123+00:00"},"s":"I","c":"` + comp + `","id":1,"ctx":"c","msg":"Slow query","attr":{"ns":"d.c","command":` + cmd + `}}`
+	}
+	shapes := []struct {
+		name string
+		mk   func(q string) string
+	}{
+		{"update.updates[].u pipeline form $set", func(q string) string {
+			return env("COMMAND", `{"update":"c","updates":[{"q":{"k":1},"u":[{"$set":{"a":`+q+`}}]}],"$db":"d"}`)
+		}},
+		{"update.updates[].u pipeline form $replaceWith", func(q string) string {
+			return env("COMMAND", `{"update":"c","updates":[{"q":{"k":1},"u":[{"$replaceWith":{"a":{"$literal":`+q+`}}}]}],"$db":"d"}`)
+		}},
+		{"update.updates[].u document form", func(q string) string {
+			return env("COMMAND", `{"update":"c","updates":[{"q":{"a":`+q+`},"u":{"$set":{"b":1}}}],"$db":"d"}`)
+		}},
+		{"findAndModify.update pipeline form", func(q string) string {
+			return env("COMMAND", `{"findAndModify":"c","query":{"k":1},"update":[{"$set":{"a":`+q+`}}],"$db":"d"}`)
+		}},
+		{"findAndModify.arrayFilters", func(q string) string {
+			return env("COMMAND", `{"findAndModify":"c","query":{"k":1},"update":{"$set":{"x.$[e]":1}},"arrayFilters":[{"e.a":`+q+`}],"$db":"d"}`)
+		}},
+		{"aggregate $match / $in", func(q string) string {
+			return env("COMMAND", `{"aggregate":"c","pipeline":[{"$match":{"a":{"$in":[`+q+`,1]}}}],"cursor":{},"$db":"d"}`)
+		}},
+		{"aggregate $lookup.pipeline $match", func(q string) string {
+			return env("COMMAND", `{"aggregate":"c","pipeline":[{"$lookup":{"from":"o","pipeline":[{"$match":{"a":`+q+`}}],"as":"j"}}],"cursor":{},"$db":"d"}`)
+		}},
+		{"aggregate $addFields expression", func(q string) string {
+			return env("COMMAND", `{"aggregate":"c","pipeline":[{"$addFields":{"f":{"$concat":["$g",`+q+`]}}}],"cursor":{},"$db":"d"}`)
+		}},
+		{"aggregate $search text.query", func(q string) string {
+			return env("COMMAND", `{"aggregate":"c","pipeline":[{"$search":{"text":{"query":`+q+`,"path":"bio"}}}],"cursor":{},"$db":"d"}`)
+		}},
+		{"insert.documents[]", func(q string) string {
+			return env("COMMAND", `{"insert":"c","documents":[{"a":{"b":[`+q+`]}}],"$db":"d"}`)
+		}},
+		{"delete.deletes[].q", func(q string) string {
+			return env("COMMAND", `{"delete":"c","deletes":[{"q":{"a":`+q+`},"limit":0}],"$db":"d"}`)
+		}},
+		{"WRITE line u pipeline form", func(q string) string {
+			return env("WRITE", `{"q":{"k":1},"u":[{"$set":{"a":`+q+`}}],"multi":false}`)
+		}},
+		{"originatingCommand of a getMore", func(q string) string {
+			return `{"t":{"$date":"2024-05-01T10:00:00.123+00:00"},"s":"I","c":"COMMAND","id":1,"ctx":"c","msg":"Slow query","attr":{"ns":"d.c","command":{"getMore":7,"collection":"c","$db":"d"},"originatingCommand":{"find":"c","filter":{"a":` + q + `},"$db":"d"}}}`
+		}},
+	}
+	pts := []string{"plain text", "x", "é 日本 😀", "15% off", "a@b.co", "bob@example.com ", "ends with backslash \\", "REDACTED", "000000000000000000000001"}
+	for _, sh := range shapes {
+		for _, pt := range pts {
+			line := sh.mk(LS(pt).JSON())
+			out, ok, pv := redactLine(line)
+			c.Eval(1)
+			c.Distinct(fmt.Sprintf("positions/%d/%s/%q", c.Shard, sh.name, pt))
+			if pv != nil || !ok {
+				c.Count("skipped_panics_or_rejected", 1)
+				continue
+			}
+			// the ciphertext: the one string of the output that is not in the input and decodes as base64
+			found, bad := 0, ""
+			j, err := ParseJSON([]byte(out))
+			if err != nil {
+				continue
+			}
+			var walk func(n *JNode)
+			walk = func(n *JNode) {
+				if n.Kind == JStr && !strings.Contains(line, LS(n.Str).JSON()) {
+					raw, e := base64.StdEncoding.Strict().DecodeString(n.Str)
+					if e != nil {
+						bad = "a new string in the output is not standard base64: " + trunc(n.Str, 40)
+						return
+					}
+					b, e := Decrypt(raw, key)
+					found++
+					if e != nil {
+						bad = fmt.Sprintf("the emitted text does not decrypt (%v)", e)
+					} else if string(b) != pt {
+						bad = fmt.Sprintf("the emitted text decrypts to %q, not to the literal %q", trunc(string(b), 60), pt)
+					}
+				}
+				for _, k := range n.Kids {
+					walk(k)
+				}
+			}
+			walk(j)
+			if bad == "" && found == 0 && !strings.Contains(out, LS(pt).JSON()) {
+				bad = "no ciphertext of the literal in the output"
+			}
+			if bad != "" {
+				c.Violate("roundtrip:position:"+sh.name, fmt.Sprintf("the literal %q at %s under --encrypt: %s; output %s", pt, sh.name, bad, trunc(out, 300)), int64(len(pt)),
+					map[string]any{"kind": "redact-line", "input": line, "flags": "Y", "output": out}, nil)
+			}
+		}
+	}
+}
+
 func c09CLI(c *Ctx) {
 	dir := freshDir(c.Scratch, "c09cli")
 	keyPath := filepath.Join(dir, "k.key")
@@ -496,7 +602,7 @@ func c09CLI(c *Ctx) {
 	}
 	// texts that mean something to a routine that prints, formats or parses arguments: printf verbs, a leading dash,
 	// shell and format metacharacters - what comes back from `decrypt` must be the text itself
-	for si, pt := range []string{"15% off", "%s %d %v %q %x %n %!", "100%%", "%", "%!s(MISSING)", "-leading-dash", "--help", "a\\tb \\n \\u0041", "$HOME `id` $(id)", "{{.}} {0} %(x)s", "tab\there", "semi;colon|pipe&amp", "trailing blank ", "LIKE '%x%'"} {
+	for si, pt := range []string{"15% off", "%s %d %v %q %x %n %!", "100%%", "%", "%!s(MISSING)", "-leading-dash", "--help", "a\\tb \\n \\u0041", "echo $HOME `id` $(id)", "{{.}} {0} %(x)s", "tab\there", "semi;colon|pipe&amp", "trailing blank ", "LIKE '%x%'"} {
 		no++
 		if !c.Mine(no) {
 			continue
